@@ -303,7 +303,7 @@ pub fn op_strategy(p: &Profile) -> BoxedStrategy<Op> {
         3 => (any::<u16>(), pos_sel(), if weird { prop_oneof![8 => Just(None), 1 => prop_oneof![Just(i32::MIN), Just(i32::MAX), Just(-1i32), any::<i32>()].prop_map(Some)].boxed() } else { Just(None).boxed() })
             .prop_map(|(f, to, raw)| Op::SeekCur { f, to, raw }),
         3 => (any::<u16>(), pos_sel()).prop_map(|(f, back)| Op::SeekEnd { f, back }),
-        2 => (any::<u16>(), any::<u8>(), pos_sel(), if weird { prop_oneof![8 => Just(None), 1 => prop_oneof![Just(i64::MAX), Just(-(1i64 << 32)), Just(1i64 << 32), Just(-1i64), Just(1i64), any::<i64>()].prop_map(Some)].boxed() } else { Just(None).boxed() })
+        2 => (any::<u16>(), any::<u8>(), pos_sel(), if weird { prop_oneof![8 => Just(None), 1 => prop_oneof![Just(i64::MAX), Just(i64::MIN), Just(i64::MIN + 1), Just(-(1i64 << 32)), Just(1i64 << 32), Just(-1i64), Just(1i64), any::<i64>()].prop_map(Some)].boxed() } else { Just(None).boxed() })
             .prop_map(|(f, whence, to, raw)| Op::IoSeek { f, whence, to, raw }),
     ];
     let mut v: Vec<(u32, BoxedStrategy<Op>)> = vec![
